@@ -179,7 +179,9 @@ class SRv6SID(BGPLS):
             raise Notify(3, 10, 'BGP-LS SRv6 SID NLRI has no Local Node descriptor')
 
         # Store complete wire format including header
-        return cls(data)
+        instance = cls(data)
+        instance.route_d = rd if rd is not None else RouteDistinguisher.NORD
+        return instance
 
     # pack_nlri inherited from BGPLS base class - returns self._packed directly
 
@@ -194,11 +196,11 @@ class SRv6SID(BGPLS):
         if not isinstance(other, SRv6SID):
             return False
         # Direct _packed comparison - CODE, proto_id, domain, TLVs all encoded in wire format
-        return self._packed == other._packed
+        return self._packed == other._packed and getattr(self, 'route_d', None) == getattr(other, 'route_d', None)
 
     def __hash__(self) -> int:
         # Direct _packed hash - all wire fields encoded in bytes
-        return hash(self._packed)
+        return hash((self._packed, getattr(self, 'route_d', None)))
 
     def json(self, announced: bool = True, compact: bool = False) -> str:
         nodes = ', '.join(d.json() for d in self.local_node_descriptors)
